@@ -120,6 +120,11 @@ Json plan_to_json(const Plan &p);
 bool plan_from_json(const Json &j, Plan &p);
 uint64_t plan_shape_hash(const Plan &p);
 size_t plan_op_count(const Plan &p);
+// Known findings (signatures "<prop>:<class>@<OPKIND>[+FLAG]") whose class kills the process cannot be stepped over at run
+// time; the operation shape they are identified by is taken out of plans instead. Returns true if anything was removed.
+extern std::vector<std::string> g_known_hard;
+bool plan_avoid_known(Plan &p);
+std::string op_sig(int kind, uint32_t flags);
 
 // ---------------------------------------------------------------- properties
 enum Prop { PR_NONE = 0, C11, C12, C13, C15, C16, C17, C18, C19, C20, PR_COUNT };
